@@ -481,7 +481,7 @@ def _serialize_date_tzinfo(date: Union[Date, GYear, GMonth, GDay, GYearMonth, GM
         if not isinstance(date, Date):
             date = date.into_date()
         offset: datetime.timedelta = date.tzinfo.utcoffset(datetime.datetime(date.year, date.month, date.day, 0, 0, 0))
-        offset_seconds = (offset.total_seconds() + 3600*12) % (3600*24) - 3600*12
+        offset_seconds = offset.total_seconds()
         if offset_seconds // 60 == 0:
             return "Z"
         return "{}{:02.0f}:{:02.0f}".format("+" if offset_seconds >= 0 else "-",
